@@ -223,7 +223,10 @@ func (l *limiter) Close() {
 	if !l.closed {
 		l.close()
 		if l.parent == nil {
+			// Release the lock before signaling the ticker goroutine, since it may be waiting for the lock
+			l.controller.lock.Unlock()
 			l.controller.done <- true
+			return
 		} else {
 			for i, child := range l.parent.children {
 				if child != l {
